@@ -5,6 +5,7 @@
 set -e
 cd "$(dirname "$0")"
 mkdir -p build/extracted build/bin build/tmp evidence replays
+python3 tools/gencoqproject.py
 ( cd coq && coq_makefile -f _CoqProject -o Makefile >/dev/null && make -j16 )
 python3 tools/buildall.py
 echo setup done
